@@ -188,6 +188,11 @@ def judge_idle(order_seed):
 
     fails = []
     base = gateset.make(idle=False, logged=False)
+    # ordinary active gates whose names merely look like those of the bounding gates, or like idle gates
+    from jaqalpaq.core import GateDefinition, Parameter, ParamType
+
+    for nm in ("prepare_phase", "measure_basis_x", "prepare_allx", "measure_al", "Iprepare", "all_measure", "I2"):
+        base[nm] = GateDefinition(nm, [Parameter("q", ParamType.QUBIT), Parameter("t", ParamType.FLOAT)])
     items = list(base.items())
     random.Random(order_seed).shuffle(items)
     if order_seed % 2:
